@@ -1254,6 +1254,13 @@ func c17Splits(w *c17World, op c17Op, cls Class, out c17Out, before, after *c17S
 				}
 			}
 			cnt.Inc(fmt.Sprintf("split:close:%s:%s", strings.ToLower(outcomeCoq[ev[1]]), when))
+			if p != nil {
+				if c, ok := w.coms[p.com]; ok && c.Token {
+					cnt.Inc("split:tally:token")
+				} else if ok {
+					cnt.Inc("split:tally:member")
+				}
+			}
 		}
 	case "submit":
 		if cls == ClassOk {
@@ -1264,7 +1271,7 @@ func c17Splits(w *c17World, op c17Op, cls Class, out c17Out, before, after *c17S
 
 var c17AllSplits = []string{
 	"allows:single:true", "allows:single:false", "allows:multi:true", "allows:multi:false", "allows:unknown-param:false", "allows:panic",
-	"close:passed:fptp-early", "close:passed:at-deadline", "close:failed:at-deadline", "close:invalid:at-deadline", "close:invalid:fptp-early", "close:failed:no-committee",
+	"close:passed:fptp-early", "close:passed:at-deadline", "close:failed:at-deadline", "close:invalid:at-deadline", "close:invalid:fptp-early",
 	"submit:stored:param", "submit:stored:text",
 	"doc:dup-key", "doc:case-variant", "doc:reordered-keys", "doc:reordered-records", "doc:added-absent-omitempty", "doc:dropped-allowed-key",
 	"doc:drop-and-add", "doc:dup-record", "doc:null-value", "doc:wrong-type", "doc:protected-changed", "doc:nested-changed", "doc:not-json",
